@@ -21,6 +21,7 @@ SPEC = {
     # floors count generated input classes (functions of seed and tier), not branches taken by the lottery
     "floors": {
         "path_few_authors": (3000, 30000),
+        "keys_empty_entry_for_invalid_pubkey": 100, "keys_recipient_without_valid_pubkey": 40,
         "path_single_flip": (200, 1000),
         "path_topup_over7_authors": (1500, 30000),
         "path_zero_flips": (400, 5000),
